@@ -386,7 +386,37 @@ def run(ctx):
     ctx.floor("C08-R8", 14)
     C03.r7(ctx, ops=("hold", "release"), R="C08-R9")
     ctx.floor("C08-R9", 4)
+    r14(ctx)
+    C03.r2(ctx, C03.Typestate(ctx.w, C03.CELLS))   # nothing is put in flight past the state test of Link::enqueue (an answer generated on a held link is parked too)
     C02.r4(ctx)   # R7: a released batch of `capacity` data segments + FIN fits the receive queue
+
+
+def r14(ctx, R="C08-R14"):
+    ctx.rule(R, "release moves only what was parked: inside Link::release every rescheduling of a message (Sent::deliver / a write of "
+                "Sent::status) happens under the `Hold` arm of a test of that message's status (or behind a filter on it) - a message that "
+                "is already travelling keeps its sampled delivery time when a link that was not held is released")
+    b = ctx.body(R, "turmoil::top::Link::release")
+    if not b:
+        return
+    n = 0
+    filt = False
+    for fb in ctx.w.family(b.id):
+        for bb, t in fb.calls(re.compile(r"Iterator::filter$|Iterator>::filter$")):
+            for cid in closure_args(fb, t):
+                cb = ctx.w.bodies.get(cid)
+                if cb and any(adt == "turmoil::top::DeliveryStatus" and "Hold" in m for sbb, m, els, adt, pl in variant_edges(cb, lambda p: True)):
+                    filt = True
+    for fb in ctx.w.family(b.id):
+        hold = [m["Hold"] for sbb, m, els, adt, pl in variant_edges(fb, lambda p: True) if adt == "turmoil::top::DeliveryStatus" and "Hold" in m]
+        sites = [(bb, t["s"]) for bb, t in fb.calls("turmoil::top::Sent::deliver")]
+        sites += [(bb, s_["s"]) for bb, i, s_ in fb.all_stmts() if place_last_field(s_["p"]) == "turmoil::top::Sent::status"]
+        for bb, site in sites:
+            ok = (bool(hold) and fb.dominated_by_any(bb, edges=hold)) or filt
+            ctx.inst(R, f"release:reschedules-only-held#{n}", ok, site, "only messages parked by a hold are rescheduled" if ok else
+                     "Link::release reschedules a message without testing that it is held: releasing a link that is not held (a redundant release, "
+                     "`release` over all pairs) delivers every message in flight on it at once, before its latency has elapsed")
+            n += 1
+    ctx.floor(R, 1)
 
 
 def extra(tier, repo, work, insts):
